@@ -80,6 +80,7 @@ class Ctx(object):
         else:
             hs = [h for h, c in zip(self.hyps, self.hyp_cats) if c is None or c in use]
         ob = Obligation(name, goal, hs + self.pc, kind, tags, path=list(self.trace), where=self.where, note=note)
+        ob.hyps_full = (self.hyps + self.pc) if len(hs) != len(self.hyps) else None
         ob.call = getattr(self, 'call', None)
         self.obligations.append(ob)
 
